@@ -156,7 +156,7 @@ def work(item):
                         if i in ps or len(ps) != 1:
                             continue
                         p_ = ps[0]
-                        for r in '0123456789XKAZ':
+                        for r in '0123456789XK' + ('ABCDEFGHIJKLMNOPQRSTUVWXYZ' if t[p_].isalpha() else ''):
                             if r != t[p_]:
                                 u = t[:p_] + r + t[p_ + 1:]
                                 _verdict(res, name, m, u, {}, True, (2, 'sub:%s+repair' % class_of(c), v_), None, counts)
